@@ -8,6 +8,12 @@ let () = iter_lines (fun line ->
   | ["v"; l; code; cp] ->
     let (v1, v2) = Gen_Vertices.coq_GetVertices (z_of_string l) (z_of_string code) (z_of_string cp) in
     Printf.printf "%s %s\n" (zs v1) (zs v2)
+  | ["p"; l; cp; code; a1; a2] ->
+    let lz = z_of_string l and cpz = z_of_string cp and cz = z_of_string code in
+    let (v1, v2) = Gen_Vertices.coq_GetVertices lz cz cpz in
+    let a = GenPrelude.upd (GenPrelude.upd (fun _ -> z_of_int 0) v1 (z_of_string a1)) v2 (z_of_string a2) in
+    (match Gen_List.pvGetOffset (Gen_Vertices.coq_GetVertices lz) cpz a (z_of_int 0) (z_of_int 0) cz with
+     | GenPrelude.Ok o -> print_endline (zs o) | _ -> print_endline "ASSERT")
   | ["c"; v; m] -> print_endline (zs (Gen_Ceil.coq_Ceil (z_of_string v) (z_of_string m)))
   | "S" :: _sid :: keep :: rest ->
     (* DataColumnListStatic: members "M size:align ..." then ops "m idx.." / "r" *)
@@ -44,7 +50,7 @@ let () = iter_lines (fun line ->
     Buffer.add_string buf " ; raw ok ; visit";
     Stdlib.List.iter (fun o -> Buffer.add_string buf (" " ^ zs o)) offs;
     print_endline (Buffer.contents buf)
-  | first :: rest0 when first = "F" || first = "D" || (first <> "v" && first <> "c") ->
+  | first :: rest0 when first = "F" || first = "D" || (first <> "v" && first <> "c" && first <> "p") ->
     let failing = (first = "F") in
     let (l, keep, rest) = (match (if failing || first = "D" then rest0 else first :: rest0) with l :: keep :: rest -> (l, keep, rest) | _ -> ("4", "0", ["?bad"])) in
     (* A / G / H as the first op = DataColumnList(column, columns...): in the model, an Add on the empty list *)
@@ -97,8 +103,9 @@ let () = iter_lines (fun line ->
         Buffer.add_string buf (Printf.sprintf "%s %s %s %s %d" status (zs s.codeParam) (zs s.totalSize) (zs s.alignment) (Stdlib.List.length s.columns));
         Stdlib.List.iter (fun r -> Buffer.add_string buf (Printf.sprintf " %s:%s" (zs r.r_code) (zs r.r_off))) s.columns;
         Buffer.add_string buf " |";
-        Stdlib.List.iter (fun c -> match get_offset lz s (z_of_string c) with
-          | Some o -> Buffer.add_string buf (" " ^ zs o) | None -> Buffer.add_string buf " ASSERT") !added;
+        (* GetOffset: the cxx2coq translation of the real pvGetOffset, run on the model's members *)
+        Stdlib.List.iter (fun c -> match Gen_List.pvGetOffset (coq_GetVertices lz) s.codeParam s.addends s.totalSize s.alignment (z_of_string c) with
+          | GenPrelude.Ok o -> Buffer.add_string buf (" " ^ zs o) | _ -> Buffer.add_string buf " ASSERT") !added;
         Buffer.add_string buf " |";
         Stdlib.List.iter (fun c -> match contains lz s (z_of_string c) with
           | Some o -> Buffer.add_string buf (" " ^ zs o) | None -> Buffer.add_string buf " -") !universe;
@@ -115,12 +122,13 @@ let () = iter_lines (fun line ->
       let show t = Stdlib.List.iter (fun e -> match e with
         | RawLife.Ctor c -> Buffer.add_string buf (Printf.sprintf " C%d" (int_of_nat c))
         | RawLife.Dtor c -> Buffer.add_string buf (Printf.sprintf " D%d" (int_of_nat c))) t in
-      let (t, _) = RawLife.create_raw None [] !groups in
+      let ngr = nat_of_int (Stdlib.List.length !groups + 1) in
+      let (t, _) = RawLife.create_raw_idx ngr None !groups (nat_of_int 0) in
       show t; show (RawLife.destroy_raw !groups);
       let cnt = Stdlib.List.length (Stdlib.List.concat !groups) in
       for k = 0 to cnt - 1 do
         Buffer.add_string buf (Printf.sprintf " | %d:" k);
-        let (t, _) = RawLife.create_raw (Some (nat_of_int k)) [] !groups in show t
+        let (t, _) = RawLife.create_raw_idx ngr (Some (nat_of_int k)) !groups (nat_of_int 0) in show t
       done;
       if failing then Buffer.add_string buf " ; af ok";
       print_endline (Buffer.contents buf)
